@@ -20,6 +20,10 @@ EXTENDS Naming, Json
 CONSTANTS TplPrefixes, GoForms, TplThroughs, DesForms, TplSuffixes, Extra,
           EmitFrom     \* print only identifiers of at least this length
 
+\* every casing of a word: each letter independently lower or upper case (2^Len(w) spellings);
+\* exactly three of them (lower, upper, title) are styles, every other one must be rejected
+Casings(w) == {[i \in 1..Len(w) |-> IF i \in U THEN Up(w[i]) ELSE Low(w[i])] : U \in SUBSET (1..Len(w))}
+
 ProductTemplates == {p \o g \o t \o d \o s : p \in TplPrefixes, g \in GoForms, t \in TplThroughs, d \in DesForms, s \in TplSuffixes}
 TemplateList == SetToSeq(ProductTemplates \cup Extra)
 
